@@ -6,6 +6,7 @@ prefix claim satisfies the C06 interpreter oracle and the C07 fixpoint oracle, a
 monotone in k (L1)."""
 import collections
 import json
+import re
 import vlib
 from checks import liftlib, proplib, interp, c06, c07
 
@@ -137,6 +138,58 @@ def run(ctx):
                 prev = cur
                 if (fv if which == "value_passes" else fd):
                     break
+    # ---- what the passes say under a budget (audit C20 round 2 f1): a claim made after k passes is made at the fixpoint as well ----------
+    #      claims: `always true/false` (CS0009), `is quadratic` (CS0013), `the signal is constrained here` (a secondary label of CS0005);
+    #      the absence of CS0010 / CS0014 (`size is safe`, `input is range checked`) is a claim too, so those may only disappear with more passes
+    from checks import c08
+    psrcs = [
+        "template T() { signal input a; signal output o[2]; o[1] <-- a * a * a; o[0] <== a; }",
+        "template T() { signal input a; signal output o[3]; o[2] <-- a * a * a; o[0] <== a; o[1] === a; }",
+        "template T(n) { signal input a; signal output o[2]; component c[2]; c[0] = U(); c[1] = U(); c[1].in <-- a * a * a; c[0].in <== a; o[0] <== c[0].out; o[1] <== c[1].out; }",
+        "template T(n) { signal input a; signal input b; signal output o; component lt = LessThan(8); component nb[2]; nb[0] = Num2Bits(8); nb[1] = Num2Bits(254); "
+        "nb[0].in <== a; nb[1].in <== b; lt.in[0] <== a; lt.in[1] <== b; o <== lt.out; }",
+    ] + [c08.gen_template(ctx.rng, k) for k in range(40 if ctx.tier == "quick" else 400)]
+
+    def claims_of(rep):
+        pos, neg = set(), set()
+        for r in vlib.reports_of(rep):
+            loc = (r["primary"][0]["start"], r["primary"][0]["end"]) if r["primary"] else None
+            if r["id"] in ("CS0009", "CS0013"):
+                pos.add((r["id"], loc, r["message"][:60]))
+            if r["id"] == "CS0005":
+                for l in r["secondary"]:
+                    pos.add(("CS0005-constrained-here", loc, (l["start"], l["end"])))
+            if r["id"] in ("CS0010", "CS0014"):
+                neg.add((r["id"], loc))
+        return pos, neg
+    with vlib.Workdir("c20p") as wdp:
+        base = []
+        for j, s2 in enumerate(psrcs):
+            name = re.search(r"template\s+(\w+)", s2).group(1)
+            text = "pragma circom 2.0.0;\n" + c08.HELPERS + "template LessThan(n) { signal input in[2]; signal output out; out <== in[0] - in[1] + n; }\n" \
+                   "template Num2Bits(n) { signal input in; signal output out[n]; for (var i = 0; i < n; i++) { out[i] <== in; } }\n" + s2 + "\n"
+            pth = wdp.write("p%d/main.circom" % j, text.encode())
+            base.append({"inputs": [pth], "libs": [], "curve": "BN254"})
+        full = vlib.analyze(base)
+        # which constraints mention which assigned signal does not depend on degrees: with complete values and no degree pass every `<--` is
+        # a CS0005 finding with all its `constrained here` labels — the reference for those labels
+        labels = [{x for x in claims_of(r)[0] if x[0] == "CS0005-constrained-here"} if "crash" not in r else set() for r in vlib.analyze([dict(b, degree_passes=0) for b in base])]
+        for which in ("value_passes", "degree_passes"):
+            for k in (0, 1, 2, 3, 5, 8):
+                cut = vlib.analyze([dict(b, **{which: k}) for b in base])
+                for s2, f, c, lab in zip(psrcs, full, cut, labels):
+                    if "crash" in f or "crash" in c:
+                        continue
+                    stats["pass reports under a budget compared"] += 1
+                    fp, fn = claims_of(f)
+                    cp, cn = claims_of(c)
+                    gained = sorted(cp - fp - lab, key=str)
+                    lost_alarm = sorted(fn - cn, key=str)
+                    if gained or lost_alarm:
+                        l1 += 1
+                        ctx.violation("claim-gained-by-stopping-early %s" % (gained or lost_alarm)[0][0],
+                                      {"stage": "L1 a claim made after k passes is made at the fixpoint", "source": s2, "loop": which, "k": k,
+                                       "claims_only_in_the_cut_run": [list(map(str, x)) for x in gained][:5], "alarms_only_at_the_fixpoint": [list(map(str, x)) for x in lost_alarm][:5], "broken": None})
     if not ok:
         ctx.violation("theorem " + ";".join(failing)[:200], {"broken": "theorem", "failing": failing}, no_input=True)
     cov = ctx.coverage
